@@ -21,6 +21,7 @@ tvars == <<vars, l, hashOf, infl, rid>>
 tview == <<content, committed, pending, l, hashOf, infl, rid>>
 
 NoBatches(n) == {}
+TraceHeights == 1..40
 
 Ev == Trace[l]
 IsEvent(e) == l <= Len(Trace) /\ Ev.ev = e /\ l' = l + 1
